@@ -88,15 +88,15 @@ const (
 	aScratch    = 0x4000 // used by the monitors' own probe calls (after the diff)
 )
 
-func fd(nice uint64) role             { return role{k: kFd, nice: nice} }
-func out(n int) role                  { return role{k: kPtrOut, n: n, nice: aOut2} }
-func bufOut(lenArg int) role          { return role{k: kBufOut, lenArg: lenArg, nice: aOut} }
-func length(nice uint64) role         { return role{k: kLen, nice: nice} }
-func path(nice uint64) role           { return role{k: kPath, nice: nice} }
-func pathLen(nice uint64) role        { return role{k: kPathLen, nice: nice} }
+func fd(nice uint64) role              { return role{k: kFd, nice: nice} }
+func out(n int) role                   { return role{k: kPtrOut, n: n, nice: aOut2} }
+func bufOut(lenArg int) role           { return role{k: kBufOut, lenArg: lenArg, nice: aOut} }
+func length(nice uint64) role          { return role{k: kLen, nice: nice} }
+func path(nice uint64) role            { return role{k: kPath, nice: nice} }
+func pathLen(nice uint64) role         { return role{k: kPathLen, nice: nice} }
 func flags(bits int, nice uint64) role { return role{k: kFlags, n: bits, nice: nice} }
-func enum(max int) role               { return role{k: kEnum, n: max} }
-func i64(nice uint64) role            { return role{k: kI64, nice: nice} }
+func enum(max int) role                { return role{k: kEnum, n: max} }
+func i64(nice uint64) role             { return role{k: kI64, nice: nice} }
 
 // table is written from the WASI snapshot-01 docs and the parameter lists of
 // wazero's host module; run() cross-checks arity and value types against
@@ -167,10 +167,10 @@ func (r role) wantI64() bool { return r.k == kI64 || r.k == kCookie || r.k == kR
 // argsInfo describes the args/environ configuration variants (static so that
 // parent and child agree on the value sets).
 type argsInfo struct {
-	args    []string
-	env     [][2]string
-	cnt     [2]uint32 // argc, environc
-	bufLen  [2]uint32 // argv_len, environ_len
+	args   []string
+	env    [][2]string
+	cnt    [2]uint32 // argc, environc
+	bufLen [2]uint32 // argv_len, environ_len
 }
 
 var argsVariants = func() []argsInfo {
